@@ -470,6 +470,8 @@ namespace {
                     observe( step, "after a refused reschedule" );
                     if ( radio.calls && !o.ok )
                         refused_by_radio = true;
+                    if ( pulled_since_plan )
+                        second_pull = true;
                     break;
                 }
 
@@ -527,7 +529,7 @@ namespace {
         rep.label_if( wrapped, "counter-wrapped" );
         rep.label_if( refused_by_radio, "radio-refused-disarm" );
         rep.label_if( pull_after_timeout, "reschedule-after-timeout" );
-        rep.label_if( second_pull, "second-reschedule-of-one-event" );
+        rep.label_if( second_pull, "second-reschedule-of-one-event(refused or moved)" );
     }
 }
 
